@@ -825,7 +825,7 @@ int parse_instruction_thumb(AsmContext *asm_context, char *instr)
               return -1;
             }
 
-            add_bin16(asm_context, table_thumb[n].opcode | ((operands[2].value >> 2) & 0x3f), IS_OPCODE);
+            add_bin16(asm_context, table_thumb[n].opcode | ((operands[2].value >> 2) & 0x7f), IS_OPCODE);
             return 2;
           }
           break;
